@@ -81,7 +81,7 @@ def gen_procs(rng):
     return gen_script(rng, pars=[2, 3, 4, 4, 8, 8], mons=mons, extra=" procs=%d" % procs, len8=2)  # (the model's state set for par=8 grows fast with the input length)
 
 
-def gen_variant(rng, slow, ref, same=False):
+def gen_variant(rng, slow, ref, same=False, vec=False):
     """FoldM: slow and / or reference-typed monoid. Ends with enough virtual time for every Combine to return.
     same: the input is drawn from 1..3 distinct values, equal values being one shared object (ref:same)."""
     par = rng.choice([1, 1, 2, 3, 4, 8] if same else [1, 2, 2, 3, 4, 8])
@@ -95,7 +95,8 @@ def gen_variant(rng, slow, ref, same=False):
         xs = [rng.choice(pool) for _ in range(n)]
         if rng.random() < 0.6:
             base = rng.choice(["sum", "prod"])   # not idempotent: an element combined with itself shows in the value
-    mon = ("slow%d:" % d if slow else "") + ("ref:" if ref else "") + ("same:" if same else "") + base
+    # vec: the carrier is a slice type (values of it cannot be compared with ==), Empty and Combine build fresh values
+    mon = ("slow%d:" % d if slow else "") + ("vec:" if vec else "") + ("ref:" if ref else "") + ("same:" if same else "") + base
     extra = " procs=%d" % rng.choice([1, 2]) if rng.random() < 0.25 else ""
     cfg = "stage=FoldM pkg=fork par=%d cap=%d mon=%s%s" % (par, rng.choice([0, 1, 2, 5, 8]), mon, extra)
     sends = ["s%d" % x for x in xs] + ["c0"]
@@ -261,6 +262,8 @@ def run(ctx):
         scripts += [gen_variant(ctx.rng, True, True, same=True) for _ in range(20 * k)]
         scripts += [gen_variant(ctx.rng, False, True) for _ in range(60 * k)]
         scripts += [gen_variant(ctx.rng, True, True) for _ in range(40 * k)]
+        scripts += [gen_variant(ctx.rng, False, False, vec=True) for _ in range(40 * k)]
+        scripts += [gen_variant(ctx.rng, True, False, vec=True) for _ in range(10 * k)]
     binp, err = ls.build(ctx)
     if binp is None:
         ctx.broken.append({"kind": "correspondence", "detail": "lock-step harness does not build against /repo/pipe", "log": err})
